@@ -18,6 +18,7 @@ configuration (and vice versa, and both under the invalid values 3..255).  Prove
   C24_verifyBlock_iff_partial / C24_manager_accepts_authorised
 -/
 import Gossamer.Model.C24
+import Gossamer.Props.C25
 namespace Gossamer.C24
 open Gossamer.C25 (secondaryAuthor Author)
 
@@ -481,6 +482,44 @@ theorem C24_own_claims_pass (H : Bytes → Bytes) (ss c1 c2 n me : Nat) (rand : 
     verify H ss c1 c2 n rand [.pre (some pd), .sealItem] o = .ok :=
   C24_authorised_accepted _ _ _ _ _ _ _ _
     (C24_own_claims_authorised H ss c1 c2 n me rand slot b pd o hcfg hme hclaim hattach hbelow hvrf hsig)
+
+/-! ### the threshold boundary -/
+
+/-- A primary claim whose 128-bit VRF in-out value `v = natOfLE res` is NOT strictly below the epoch
+    threshold (in particular `v = threshold`) is rejected, whatever else holds: with the `below`
+    oracle being C25's `checkPrimary res thr`. -/
+theorem C24_primary_at_or_over_threshold_rejected (H : Bytes → Bytes) (ss c1 c2 n : Nat) (rand : Bytes)
+    (digest : List Item) (o : Oracles) (idx slot : Nat) (res : Bytes) (thr : C13.U128)
+    (hres : res.length ≤ 16) (hhead : digest.head? = some (.pre (some (.primary idx slot))))
+    (hbelow : o.below = C25.checkPrimary res thr) (hv : thr.toNat ≤ natOfLE res) :
+    verify H ss c1 c2 n rand digest o ≠ .ok := by
+  intro hok
+  have hl := (C24_verify_iff H ss c1 c2 n rand digest o).1 hok
+  have hb : o.below = false := by
+    rw [hbelow, C25.C25_compare res thr hres]
+    simp; omega
+  unfold authorisedLax at hl
+  rw [hhead] at hl
+  cases hg : digest.getLast? with
+  | none => simp [hg] at hl
+  | some lt =>
+    cases lt with
+    | pre _ => simp [hg] at hl
+    | other => simp [hg] at hl
+    | sealItem => simp [hg, claimRight, hb] at hl
+
+/-- … and the node's own lottery does not claim a primary slot at the boundary -/
+theorem C24_no_primary_claim_at_threshold (H : Bytes → Bytes) (ss n me : Nat) (rand : Bytes) (slot : Nat)
+    (res : Bytes) (thr : C13.U128) (hres : res.length ≤ 16) (hv : thr.toNat ≤ natOfLE res) :
+    claimSlot H ss n me rand slot (C25.checkPrimary res thr) ≠ some (.primary me slot) := by
+  have hb : C25.checkPrimary res thr = false := by
+    rw [C25.C25_compare res thr hres]; simp; omega
+  rw [hb]
+  intro h
+  rcases claimSlot_cases H ss n me rand slot false _ h with ⟨hb', _⟩ | ⟨_, _, _, h2⟩ | ⟨_, _, _, h2⟩
+  · cases hb'
+  · cases h2
+  · cases h2
 
 /-- the hypotheses are satisfiable: authority 0 of 1 claims a secondary-plain slot under ss = 1 -/
 example : claimSlot (fun _ => [0]) 1 1 0 [] 7 false = some (.secPlain 0 7) := by decide
